@@ -97,7 +97,15 @@ def classes(case):
     return out
 
 
+@st.composite
+def big_cases(draw):
+    """Models of several hundred features (files of tens of kilobytes): block-wise or incremental readers/writers."""
+    return {"model": draw(S.model_specs(S.FEATUREIDE, 250, 500)), "cycles": 3}
+
+
 SUBS = [
+    Sub("big-models", check, gen=lambda tier: big_cases(), nontrivial=lambda case: True, classes=lambda case: {"big-model"},
+        n={"quick": 2, "thorough": 30}, shards={"quick": 8, "thorough": 16}),
     Sub("roundtrip", check, gen=lambda tier: cases(), nontrivial=nontrivial, classes=classes,
         n={"quick": 250, "thorough": 4000},
         essential=["xml-special-name", "odd-name", "deep-group", "no-ctcs", "literal-ctc", "op:EXCLUDES",
